@@ -557,6 +557,48 @@ def r2011(ctx, fx, cg):
         ctx.inst(rid, "%s|scan" % a.path, sample={"bodies_on_the_accepting_thread": [g.path for g in bodies], "socket_reads": k0})
 
 
+def r2012(ctx, fx, cg):
+    rid = ctx.rule("R20.12", "waiting for a thread happens where the thread has been told to end, not wherever a value goes out of scope: no `Drop::drop` of the workspace "
+                   "reaches JoinHandle::join. A destructor runs on every way out — also on the error returns (`lsp.start()?`) that skip the orderly shutdown, where the "
+                   "shutdown handlers were not invoked and a running debug session, which watches its handler channel and not the server's flag, is never told to stop: "
+                   "the process waits for it for ever. The debugger thread is joined by DebugServer::join, which is only called behind the language server's orderly end")
+    drops = [f for f in fx.all_fns() if f.blocks and "::tests::" not in f.path and "as core::ops::drop::Drop>::drop" in f.path.replace("std::ops", "core::ops")]
+    drops = [f for f in drops if f.path.lstrip("<").startswith(("mos::", "mos_core::"))]
+    n = 0
+    for f in sorted(drops, key=lambda f: f.path):
+        n += 1
+        reach = cg.reach([f.id])
+        joins = []
+        for i in reach:
+            g = fx.fns[i]
+            for bi, t in lib.calls(g):
+                p = lib.norm(lib.callee(t)[0] or "")
+                if p.endswith("JoinHandle<T>::join") or p.endswith("JoinHandle::join"):
+                    joins.append("%s:%s" % (g.path.rsplit("::", 2)[-2] + "::" + g.path.rsplit("::", 1)[-1], t.get("line")))
+        key = "%s|joins-no-thread" % f.path
+        ctx.inst(rid, key, sample={"drop": f.path, "functions_reached": len(reach), "joins": joins})
+        if joins:
+            ctx.finding(rid, key, "%s waits for a thread (%s): it runs on every way out of the scope, also where the thread was never told to end — with a debug client "
+                        "connected and the language server leaving through an error return, the process never exits" % (
+                            f.path.split(" as ")[0].lstrip("<").rsplit("::", 1)[-1] + "::drop", joins[0]), f.where)
+    ctx.inst(rid, "drop-impls", sample={"count": n})
+    # the call of DebugServer::join follows the language server's start on every path
+    lc = [f for f in fx.all_fns("mos") if f.blocks and "::tests::" not in f.path and
+          any(lib.norm(lib.callee(t)[0] or "").endswith("DebugServer::join") for _, t in lib.calls(f))]
+    if not lc:
+        ctx.fail_closed(rid, "no caller of DebugServer::join found")
+    for f in lc:
+        starts = [bi for bi, t in lib.calls(f) if lib.norm(lib.callee(t)[0] or "").endswith("LspServer::start")]
+        for bi, t in lib.calls(f):
+            if lib.norm(lib.callee(t)[0] or "").endswith("DebugServer::join"):
+                key = "%s|join-behind-the-orderly-end" % f.path
+                ok = bool(starts) and lib.must_pass(f, starts, bi)
+                ctx.inst(rid, key, sample={"fn": f.path, "line": t.get("line"), "behind_LspServer_start": ok})
+                if not ok:
+                    ctx.finding(rid, key, "%s waits for the debugger thread on a path that does not come from the language server's main loop: nobody has invoked the "
+                                "shutdown handlers there" % f.path.rsplit("::", 1)[-1], "%s:%s" % (f.file, t.get("line")))
+
+
 def run(ctx):
     fx = ctx.facts
     cg = lib.CallGraph(fx)
@@ -568,6 +610,7 @@ def run(ctx):
     r209(ctx, fx)
     r2010(ctx, fx, cg)
     r2011(ctx, fx, cg)
+    r2012(ctx, fx, cg)
     r201(ctx, fx, cg)
     r202(ctx, fx, cg)
     r203(ctx, fx, cg)
